@@ -42,7 +42,7 @@ func pseudoVersion(modPath string) string {
 // requireBlock: the require / replace lines of the main go.mod, in the layout `go mod edit` leaves (so that the go
 // command has no reason to rewrite the file).
 func (m *Module) requireBlock() string {
-	if len(m.Ext) == 0 {
+	if len(m.Ext) == 0 || m.Work {
 		return ""
 	}
 	var b strings.Builder
@@ -371,4 +371,40 @@ func shrinkExt(sc Scenario) []Scenario {
 		}
 	}
 	return out
+}
+
+// writeWork writes the go.work file of a workspace scenario (Module.Work): in the main module's root when every other
+// module is nested below it, otherwise in the parent directory (siblings "../x"; the main module's directory is then
+// named by its base name).  The go line is the main module's, but at least 1.18 (the first release with workspaces).
+func (m *Module) writeWork(root string) error {
+	if !m.Work || len(m.Ext) == 0 {
+		return nil
+	}
+	sibling := false
+	for _, x := range m.Ext {
+		sibling = sibling || strings.HasPrefix(x.Dir, "../")
+	}
+	gv := m.GoVer
+	var maj, min int
+	if _, err := fmt.Sscanf(gv, "%d.%d", &maj, &min); err != nil || (maj == 1 && min < 18) {
+		gv = "1.18"
+	}
+	dir, self := root, "."
+	if sibling {
+		dir, self = filepath.Dir(root), "./"+filepath.Base(root)
+	}
+	var b strings.Builder
+	fmt.Fprintf(&b, "go %s\n\nuse (\n\t%s\n", gv, self)
+	for _, x := range m.Ext {
+		if strings.HasPrefix(x.Dir, "../") {
+			fmt.Fprintf(&b, "\t./%s\n", strings.TrimPrefix(x.Dir, "../"))
+		} else {
+			fmt.Fprintf(&b, "\t%s/%s\n", self, x.Dir)
+		}
+	}
+	b.WriteString(")\n")
+	if err := os.MkdirAll(dir, 0o755); err != nil {
+		return err
+	}
+	return os.WriteFile(filepath.Join(dir, "go.work"), []byte(b.String()), 0o644)
 }
